@@ -109,11 +109,70 @@ def allowedFrom (tbl : List Entry) (qt : Nat) (h : Bytes) : Nat → Bytes → Li
         o.rewritten && o.ips.isEmpty && seen.contains o.canon
       else allowedFrom tbl qt h fuel e.answer (e.answer :: seen) o
 
-/-- The monitor: `o` is an acceptable result of looking `(h, qt)` up in `tbl`.
-A chain visits every answer at most once, so `tbl.length + 1` steps suffice;
-running out of steps is a failure. -/
-def specOK (tbl : List Entry) (h : Bytes) (qt : Nat) (o : Out) : Bool :=
+/-- `o` is an acceptable result of looking `(h, qt)` up in `tbl`, names compared
+byte for byte.  A chain visits every answer at most once, so `tbl.length + 1`
+steps suffice; running out of steps is a failure. -/
+def specExact (tbl : List Entry) (h : Bytes) (qt : Nat) (o : Out) : Bool :=
   allowedFrom tbl qt h (tbl.length + 1) h [] o
+
+/-- DNS names are case-insensitive: patterns, the names CNAME entries point at,
+the queried name and the canonical name are all read in lower case. -/
+def foldEntry (e : Entry) : Entry :=
+  { e with domain := lower e.domain, answer := if e.typ = .CNAME then lower e.answer else e.answer }
+
+def foldOut (o : Out) : Out := { o with canon := lower o.canon }
+
+/-- The monitor: `specExact` on the case-folded table, name and result.  An
+entry `Example.com → Example.com` is a "name to itself" exception, a CNAME to
+`B.x.com` continues at the entries for `b.x.com`. -/
+def specOK (tbl : List Entry) (h : Bytes) (qt : Nat) (o : Out) : Bool :=
+  specExact (tbl.map foldEntry) (lower h) qt (foldOut o)
+
+/-- All names in the table are already in lower case. -/
+def LowerNames (tbl : List Entry) : Prop := ∀ e ∈ tbl, foldEntry e = e
+
+/-! ### DNS level
+
+What the client may see, in the words of the property: an untouched query goes
+to the upstream under its own name; a CNAME that cannot be finished from the
+table is resolved upstream under the canonical name, and the reply carries the
+ORIGINAL question and starts with the CNAME record; everything else is answered
+locally (NOERROR, upstream not asked) with an optional CNAME record followed by
+exactly the addresses — possibly none ("empty successful answer, not the
+upstream's").  In each case the underlying lookup result must be acceptable to
+`specOK` for the lower-cased name. -/
+
+/-- A leading `host CNAME target` record, if any, and the records after it. -/
+def splitCname (host : Bytes) (ans : List RR) : Bytes × List RR :=
+  match ans with
+  | ⟨5, owner, target⟩ :: rest => if owner = host ∧ target ≠ [] then (target, rest) else ([], ans)
+  | l => ([], l)
+
+/-- The lookup result a reply stands for, if it has one of the three shapes. -/
+def obsToOut (obs : DnsObs) (host : Bytes) (qt : Nat) : Option Out :=
+  if obs.question ≠ host ∨ obs.rcode ≠ 0 then none
+  else match obs.asked with
+    | [] =>
+      -- answered locally
+      let c := (splitCname host obs.answer).1
+      let rest := (splitCname host obs.answer).2
+      let owner := if c = [] then host else c
+      if rest.all (fun rr => rr.typ == qt && (qt == 1 || qt == 28) && rr.owner == owner) ∧
+          ¬ (c ≠ [] ∧ rest = []) then
+        some ⟨true, c, rest.map (·.data)⟩
+      else none
+    | [n] =>
+      -- resolved upstream under a canonical name: original question, leading CNAME
+      if n ≠ [] ∧ obs.answer = ⟨5, host, n⟩ :: upstreamAnswer n qt then some ⟨true, n, []⟩
+      -- passed through: the upstream's answer for the name itself, untouched
+      else if n = host ∧ obs.answer = upstreamAnswer host qt then some Out.empty
+      else none
+    | _ => none
+
+def dnsSpecOK (tbl : List Entry) (host : Bytes) (qt : Nat) (obs : DnsObs) : Bool :=
+  match obsToOut obs host qt with
+  | some o => specOK tbl (lower host) qt o
+  | none => false
 
 /-! ### Prop-level vocabulary for the order-independence theorems -/
 
@@ -135,9 +194,13 @@ def OutEquiv (a b : Out) : Prop :=
 
 /-- Narrow reason class for a failing case (stable token for known findings). -/
 def failClass (tbl : List Entry) (h : Bytes) (qt : Nat) (o : Out) : String :=
-  if !(tbl.any (covers · h)) then "C06.unmatched-name-touched"
+  if specExact tbl h qt o then "C06.answer-case"   -- fails only when names are compared case-insensitively
+  else if !(tbl.any (covers · h)) then "C06.unmatched-name-touched"
   else if o.ips.any (fun ip => !(tbl.any (fun e => value e qt == some ip))) then "C06.address-not-in-table"
   else if !o.rewritten then "C06.unexpected-pass-through"
-  else "C06.precedence"
+  else if specExact tbl h qt Out.empty then "C06.exception-not-passed-through"
+  else if o.canon.isEmpty && o.ips.isEmpty then "C06.unexpected-empty-answer"
+  else if o.canon.isEmpty then "C06.address-precedence"
+  else "C06.cname-precedence"
 
 end AGH.C06.Spec
